@@ -1618,6 +1618,10 @@ def pct_alphabet_re():
 @ext("urllib.parse.quote")
 def urllib_quote(eng, world, args, kwargs, node):
     s = eng.force(args[0])
+    if len(args) > 1 or "safe" in kwargs or "encoding" in kwargs:
+        sv = eng.force(kwargs.get("safe", args[1] if len(args) > 1 else VStr("/")))
+        if not (isinstance(sv, VStr) and is_conc(sv.z) and sv.z == "/") or "encoding" in kwargs:
+            raise OutOfSubset("urllib.parse.quote with a non-default safe/encoding argument (only the default alphabet is modelled)")
     eng.assumptions_used.add("urllib.parse.quote(s[, errors='surrogateescape']) output is over [A-Za-z0-9_.~/%-] and unquote(quote(s), errors='surrogateescape') == s; quote(str, surrogateescape) == quote(se_encode(str)); empty iff input empty")
     if isinstance(s, VStr) and not s.isbytes:
         err = kwargs.get("errors")
@@ -1817,3 +1821,16 @@ def shelve_open(eng, world, args, kwargs, node):
     d = VDict({}, sym=(eng.fresh_name("shelf"), "opaque:inode"), valty="opaque:inode")
     d.is_shelf = True
     return d
+
+
+def _os_id(name):
+    def impl(eng, world, args, kwargs, node):
+        eng.assumptions_used.add("os.getuid()/geteuid()/getgid()/getegid() return some non-negative integer")
+        v = z3.Int(eng.fresh_name(name.replace(".", "_")))
+        eng.assume(v >= 0)
+        return VInt(v)
+    return impl
+
+
+for _n in ("os.getuid", "os.geteuid", "os.getgid", "os.getegid"):
+    EXT_IMPL[_n] = _os_id(_n)
